@@ -87,6 +87,9 @@ func ittIndex(p *Process, params []string, cRecords chan []string, marshaller fu
 			}
 			mode = byRowNumber
 			num, _ := strconv.Atoi(params[i][1:])
+			if num < 1 {
+				return fmt.Errorf("row numbers start from *1: `%s`", params[i])
+			}
 			matchInt = append(matchInt, num-1) // Don't count from zero
 
 		case rxColumnPrefixOld.MatchString(params[i]):
@@ -120,15 +123,11 @@ func ittIndex(p *Process, params []string, cRecords chan []string, marshaller fu
 		var (
 			ordered = true
 			last    int
-			max     int
 		)
 		// check order
 		for _, i := range matchInt {
 			if i < last {
 				ordered = false
-			}
-			if i > max {
-				max = i
 			}
 			last = i
 		}
@@ -156,17 +155,20 @@ func ittIndex(p *Process, params []string, cRecords chan []string, marshaller fu
 			}
 
 		} else {
-			// unordered matching - for this we load the entire data set into memory - up until the maximum value
+			// unordered matching - for this we load the requested records into memory
 			var (
 				i     int
-				lines = make([][]string, max+1)
+				lines = make(map[int][]string)
 			)
+			for _, j := range matchInt {
+				lines[j] = nil
+			}
 			for {
 				recs, ok := <-cRecords
 				if !ok {
 					break
 				}
-				if i <= max {
+				if _, wanted := lines[i]; wanted {
 					lines[i] = recs
 				}
 				i++
